@@ -126,6 +126,10 @@ func handleMsgUpdateServiceBinding(ctx sdk.Context, k keeper.Keeper, msg *types.
 }
 
 func handleMsgSetWithdrawAddress(ctx sdk.Context, k keeper.Keeper, msg *types.MsgSetWithdrawAddress) (*sdk.Result, error) {
+	if k.BlockedAddr(msg.WithdrawAddress) {
+		return nil, sdkerrors.Wrapf(sdkerrors.ErrUnauthorized, "%s is not allowed to receive funds", msg.WithdrawAddress)
+	}
+
 	k.SetWithdrawAddress(ctx, msg.Owner, msg.WithdrawAddress)
 
 	ctx.EventManager().EmitEvents(sdk.Events{
